@@ -43,8 +43,8 @@ theorem pyFloat_fixedCol {ip fr : List Char}
     have hl' : (c :: (r ++ '.' :: fr)).getLast? = some d := by
       have : c :: (r ++ '.' :: fr) = (c :: r ++ ['.']) ++ fr := by simp
       rw [this]; exact hl
-    have hstrip : strip (ip ++ '.' :: fr) = (c :: r) ++ '.' :: fr :=
-      strip_padded (r := r ++ '.' :: fr) hdrop (digit_not_ws hc) hl' (digit_not_ws hd)
+    have hstrip : numStrip (ip ++ '.' :: fr) = (c :: r) ++ '.' :: fr :=
+      numStrip_padded (r := r ++ '.' :: fr) hdrop (digit_not_numws hc) hl' (digit_not_numws hd)
     have hb : ((c :: r) ++ '.' :: fr).any badF = false := hb0
     have hlow : ((c :: r) ++ '.' :: fr).map lowF = (c :: r) ++ '.' :: fr := hlow0
     have h1 : ∀ x, (c :: r) ++ '.' :: fr ≠ '-' :: x := by
@@ -74,19 +74,19 @@ theorem pyFloat_signedFrac {sg : Char} {fr : List Char} (hsg : isSign sg = true)
   simp only [Bool.or_eq_true, beq_iff_eq] at hsg
   rcases hsg with (h | h) | h <;> subst h
   · -- blank sign: stripped away
-    have hstrip : strip (' ' :: '.' :: fr) = '.' :: fr :=
-      strip_padded (s := ' ' :: '.' :: fr) (c := '.') (r := fr) (by simp) (by decide)
-        (by simpa using hl) (digit_not_ws hd)
+    have hstrip : numStrip (' ' :: '.' :: fr) = '.' :: fr :=
+      numStrip_padded (s := ' ' :: '.' :: fr) (c := '.') (r := fr) (by simp) (by decide)
+        (by simpa using hl) (digit_not_numws hd)
     rw [pyFloat_plain hstrip hb hlow (by intro x e; simp at e) (by intro x e; simp at e), hbody]
     rfl
-  · have hstrip : strip ('+' :: '.' :: fr) = '+' :: '.' :: fr :=
-      strip_padded (s := '+' :: '.' :: fr) (c := '+') (r := '.' :: fr) (by simp) (by decide)
-        (by simpa using hl) (digit_not_ws hd)
+  · have hstrip : numStrip ('+' :: '.' :: fr) = '+' :: '.' :: fr :=
+      numStrip_padded (s := '+' :: '.' :: fr) (c := '+') (r := '.' :: fr) (by simp) (by decide)
+        (by simpa using hl) (digit_not_numws hd)
     rw [pyFloat_pos hstrip (by rw [List.any_cons, hb]; decide) (by rw [List.map_cons, hlow]; rfl), hbody]
     rfl
-  · have hstrip : strip ('-' :: '.' :: fr) = '-' :: '.' :: fr :=
-      strip_padded (s := '-' :: '.' :: fr) (c := '-') (r := '.' :: fr) (by simp) (by decide)
-        (by simpa using hl) (digit_not_ws hd)
+  · have hstrip : numStrip ('-' :: '.' :: fr) = '-' :: '.' :: fr :=
+      numStrip_padded (s := '-' :: '.' :: fr) (c := '-') (r := '.' :: fr) (by simp) (by decide)
+        (by simpa using hl) (digit_not_numws hd)
     rw [pyFloat_neg hstrip (by rw [List.any_cons, hb]; decide) (by rw [List.map_cons, hlow]; rfl), hbody]
     rfl
 
@@ -136,25 +136,25 @@ theorem readTleDecimal_expoCol {sg es e : Char} {mant : List Char} (hsg : isSign
     rw [List.map_cons, hle]; rfl
   have hlast : ∀ pre : List Char, (pre ++ (mant ++ 'e' :: [es, e])).getLast? = some e := by
     intro pre; simp [List.getLast?_append]
-  have hews := digit_not_ws he
+  have hews := digit_not_numws he
   unfold isSign at hsg
   simp only [Bool.or_eq_true, beq_iff_eq] at hsg
   rcases hsg with (h | h) | h <;> subst h
   · simp only [Char.reduceEq, or_true, true_or, or_false, ↓reduceIte]
-    have hstrip : strip (' ' :: '.' :: (mant ++ 'e' :: [es, e])) = '.' :: (mant ++ 'e' :: [es, e]) :=
-      strip_padded (s := ' ' :: '.' :: (mant ++ 'e' :: [es, e])) (c := '.') (r := mant ++ 'e' :: [es, e])
+    have hstrip : numStrip (' ' :: '.' :: (mant ++ 'e' :: [es, e])) = '.' :: (mant ++ 'e' :: [es, e]) :=
+      numStrip_padded (s := ' ' :: '.' :: (mant ++ 'e' :: [es, e])) (c := '.') (r := mant ++ 'e' :: [es, e])
         (by simp) (by decide) (hlast ['.']) hews
     rw [pyFloat_plain hstrip hb hlow (by intro x h; simp at h) (by intro x h; simp at h), hbody]
     rfl
   · simp only [Char.reduceEq, or_true, true_or, or_false, ↓reduceIte]
-    have hstrip : strip ('+' :: '.' :: (mant ++ 'e' :: [es, e])) = '+' :: '.' :: (mant ++ 'e' :: [es, e]) :=
-      strip_padded (s := '+' :: '.' :: (mant ++ 'e' :: [es, e])) (c := '+') (r := '.' :: (mant ++ 'e' :: [es, e]))
+    have hstrip : numStrip ('+' :: '.' :: (mant ++ 'e' :: [es, e])) = '+' :: '.' :: (mant ++ 'e' :: [es, e]) :=
+      numStrip_padded (s := '+' :: '.' :: (mant ++ 'e' :: [es, e])) (c := '+') (r := '.' :: (mant ++ 'e' :: [es, e]))
         (by simp) (by decide) (hlast ['+', '.']) hews
     rw [pyFloat_pos hstrip (by rw [List.any_cons, hb]; decide) (by rw [List.map_cons, hlow]; rfl), hbody]
     rfl
   · simp only [Char.reduceEq, or_true, true_or, or_false, ↓reduceIte]
-    have hstrip : strip ('-' :: '.' :: (mant ++ 'e' :: [es, e])) = '-' :: '.' :: (mant ++ 'e' :: [es, e]) :=
-      strip_padded (s := '-' :: '.' :: (mant ++ 'e' :: [es, e])) (c := '-') (r := '.' :: (mant ++ 'e' :: [es, e]))
+    have hstrip : numStrip ('-' :: '.' :: (mant ++ 'e' :: [es, e])) = '-' :: '.' :: (mant ++ 'e' :: [es, e]) :=
+      numStrip_padded (s := '-' :: '.' :: (mant ++ 'e' :: [es, e])) (c := '-') (r := '.' :: (mant ++ 'e' :: [es, e]))
         (by simp) (by decide) (hlast ['-', '.']) hews
     rw [pyFloat_neg hstrip (by rw [List.any_cons, hb]; decide) (by rw [List.map_cons, hlow]; rfl), hbody]
     rfl
